@@ -52,6 +52,8 @@ pub struct Spelling {
     pub long_form: u8,
     /// 0: minimal remaining-length encoding; 2..=4: padded to that many bytes (non-minimal)
     pub remlen_width: u8,
+    /// 0: minimal property-length encodings; 2..=4: every property length padded to that many bytes
+    pub proplen_width: u8,
 }
 
 fn lp(b: &[u8]) -> Vec<u8> {
@@ -303,6 +305,18 @@ pub fn ref_encode(fam: Fam, p: &RP, sp: &Spelling) -> Frame {
         }
     }
     f.reframe();
+    if sp.proplen_width >= 2 {
+        for s in f.segs.iter_mut() {
+            if s.role == Role::PropLen {
+                if let VarDec::Ok(v, n, _) = varint_dec(&s.bytes) {
+                    if (sp.proplen_width as usize) > n && (v as u64) < (1u64 << (7 * sp.proplen_width.min(4) as u64)) {
+                        s.bytes = varint_enc_width(v, sp.proplen_width.min(4) as usize);
+                    }
+                }
+            }
+        }
+        f.fix_remlen(0);
+    }
     if sp.remlen_width >= 2 {
         f.fix_remlen(sp.remlen_width);
     }
